@@ -764,6 +764,122 @@ func scenRemoveEmptyPool(o *hlib.Out, afterClose bool) {
 	emit(o, "session-remove-empty", removed, "", e.viol, e.info)
 }
 
+// S11: connect attempts that fail after the transport has been dialled (AuthProvider error, ERROR in
+// reply to STARTUP, USE keyspace failure) during the initial fill, a refill after a lost connection
+// and a control-connection reconnect. Every early-return path between DialHost and the connection
+// being owned by a pool (or the control connection) must close the transport: at quiescence the open
+// links of the in-memory network are exactly the connections the driver owns, and none after Close.
+func scenFailedConnects(o *hlib.Out, rng *hlib.Rng, mode string) {
+	var calls int32
+	var failAt sync.Map // call number -> true
+	failNext := func(n int32) { failAt.Store(atomic.LoadInt32(&calls)+n, true) }
+	var armed int32 // modes startup/use: the next matching request gets an error
+	e, err := newSessEnv("failed-connect-"+mode, 2, 2, func(cfg *gocql.ClusterConfig, e *sessEnv) {
+		if mode == "auth" {
+			k := int32(2 + rng.Intn(3)) // a pool connection of the initial fill (call 1 is the control connection)
+			failAt.Store(k, true)
+			e.info["auth_fail_call_initial"] = k
+			cfg.AuthProvider = func(h *gocql.HostInfo) (gocql.Authenticator, error) {
+				n := atomic.AddInt32(&calls, 1)
+				if _, bad := failAt.Load(n); bad {
+					return nil, fmt.Errorf("verif: auth provider unavailable (call %d)", n)
+				}
+				return nil, nil
+			}
+		}
+	})
+	if err != nil {
+		e.v("harness", "", "NewSession: %v", err)
+		emit(o, "session-failed-connect", false, "", e.viol, e.info)
+		e.done()
+		return
+	}
+	defer e.done()
+	if mode != "auth" {
+		for _, nd := range e.nodes {
+			nd := nd
+			match := node.MatchOp(node.OpStartup)
+			if mode == "use" {
+				match = node.MatchStatement("USE", node.OpQuery)
+			}
+			nd.AddRule(node.Rule{Match: match, Do: func(c *node.ServerConn, req *node.Request) {
+				if atomic.CompareAndSwapInt32(&armed, 1, 0) {
+					c.Reply(req, node.Error{Code: node.ErrServer, Message: "verif: " + mode + " refused"})
+					return
+				}
+				nd.Default(c, req)
+			}})
+		}
+		failNext = func(int32) { atomic.StoreInt32(&armed, 1) }
+	}
+	// owned = connections in the session's pools + the control connection (if it is up)
+	check := func(phase string) {
+		var open, owned int
+		var which []string
+		ok := e.net.WaitFor(3*time.Second, func() bool {
+			open, which = openClientEnds(e.net)
+			owned = 0
+			for _, n := range gocql.VerifC17SessionPools(e.s) {
+				owned += n
+			}
+			ctrl := 0
+			for _, nd := range e.nodes {
+				for _, c := range nd.Conns() {
+					if len(c.Registered()) > 0 && c.Open() {
+						ctrl = 1
+					}
+				}
+			}
+			owned += ctrl
+			return open == owned
+		})
+		// WaitFor only re-evaluates on network events: look once more after a pause
+		if !ok {
+			time.Sleep(300 * time.Millisecond)
+			open, which = openClientEnds(e.net)
+		}
+		e.info["open_"+phase] = open
+		e.info["owned_"+phase] = owned
+		if open > owned {
+			e.v("transport-leaked-on-failed-connect", "", "%s: %d transport(s) dialled by the driver are open but only %d connection(s) are owned by its pools / control connection (open links: %s): a connect attempt that failed after DialHost did not close what it had dialled",
+				phase, open, owned, strings.Join(which, " "))
+		}
+	}
+	check("initial-fill")
+	// refill: a pool connection is lost, the connect that replaces it fails
+	failNext(1)
+	killed := false
+	for _, nd := range e.nodes {
+		for _, c := range nd.Conns() {
+			if !killed && len(c.Registered()) == 0 && c.Open() {
+				c.Close()
+				killed = true
+			}
+		}
+	}
+	time.Sleep(250 * time.Millisecond) // fillingStopped backs off up to 130 ms after the failed connect
+	check("refill")
+	// control reconnect: the control connection is lost, the first reconnect attempt fails
+	failNext(1)
+	for _, nd := range e.nodes {
+		for _, c := range nd.Conns() {
+			if len(c.Registered()) > 0 && c.Open() {
+				c.Close()
+			}
+		}
+	}
+	time.Sleep(100 * time.Millisecond)
+	check("control-reconnect")
+	e.info["provider_calls"] = atomic.LoadInt32(&calls)
+	if !e.closeWatch(10 * time.Second) {
+		e.v("close-never-returns", "", "Close did not return within 10 s")
+		emit(o, "session-failed-connect", true, "", e.viol, e.info)
+		return
+	}
+	e.afterClose()
+	emit(o, "session-failed-connect", killed, "", e.viol, e.info)
+}
+
 func runSessions(o *hlib.Out) {
 	rng := o.Rng
 	reps := 1
@@ -788,6 +904,9 @@ func runSessions(o *hlib.Out) {
 		scenInitFails(o)
 		scenAddHostDuringClose(o)
 		scenRemoveEmptyPool(o, false)
+		scenFailedConnects(o, rng, "auth")
+		scenFailedConnects(o, rng, "startup")
+		scenFailedConnects(o, rng, "use")
 	}
 	hangs, trials := 0, 5*reps
 	for t := 0; t < trials; t++ {
